@@ -155,14 +155,16 @@ def rule_len(ctx, py):
         def on(node, facts, f=f, other=other):
             if not isinstance(node, ast.Return) or node.value is None:
                 return
-            for lc in [x for x in ast.walk(node.value) if isinstance(x, ast.ListComp)]:
-                src = pyfe.src(lc)
-                if "self.value[" in src and "%s.value[" % other in src:
-                    ok = ("len(self) == len(%s)" % other, True) in facts or \
-                         ("len(%s) == len(self)" % other, True) in facts
-                    ctx.check(ok, R, node, f._qual, src[:80], "element-wise code dominated by the length test",
-                              "arrays of different length are combined without the length check (IndexError or "
-                              "silent truncation)")
+            # the array (op) array branch: every result computed where the other operand is known to be a UnitArray
+            both = ("type(%s) == UnitArray" % other, True) in facts or ("isinstance(%s, UnitArray)" % other, True) in facts
+            lcs = [x for x in ast.walk(node.value) if isinstance(x, ast.ListComp) and "self.value[" in pyfe.src(x) and
+                   "%s.value[" % other in pyfe.src(x)]
+            if both or lcs:
+                ok = ("len(self) == len(%s)" % other, True) in facts or \
+                     ("len(%s) == len(self)" % other, True) in facts
+                ctx.check(ok, R, node, f._qual, pyfe.src(node.value)[:80], "element-wise code dominated by the length test",
+                          "arrays of different length are combined without the length check (numpy broadcasting, "
+                          "IndexError or silent truncation instead of the documented ValueError)")
 
         class C(pya.PyFacts):
             def atom(self, node, cfg):
@@ -245,11 +247,50 @@ def rule_units_ops(ctx, py):
     ctx.floor(R, 9)
 
 
+def rule_cmp_exact(ctx, py):
+    """C05.CMP -- a comparison operator returns the comparison of the two magnitudes itself (or a constant for incomparable
+    operands): not a tolerance test, a rounded comparison or any other function of the magnitudes"""
+    R = "C05.CMP"
+    from .. import pysym
+    cnode = py.cls("units.UnitValue")
+    n = 0
+
+    def okform(e):
+        if isinstance(e, ast.Compare):
+            return all(not isinstance(x, ast.Call) or pyfe.call_name(x).split(".")[-1] in ("convert", "float", "int")
+                       for x in ast.walk(e))
+        if isinstance(e, ast.Constant) and (isinstance(e.value, bool) or e.value is None):
+            return True
+        if isinstance(e, ast.Name) and e.id in ("NotImplemented",):
+            return True
+        if isinstance(e, ast.UnaryOp) and isinstance(e.op, ast.Not):
+            return okform(e.operand)
+        if isinstance(e, ast.BoolOp):
+            return all(okform(v) for v in e.values)
+        if isinstance(e, ast.Call) and isinstance(e.func, ast.Attribute) and e.func.attr in (
+                "__eq__", "__ne__", "__lt__", "__le__", "__gt__", "__ge__") and pyfe.src(e.func.value) in ("self", "v"):
+            return True
+        if isinstance(e, ast.Call) and isinstance(e.func, ast.Name) and e.func.id == "bool" and len(e.args) == 1:
+            return okform(e.args[0])
+        return False
+    for f in [x for x in cnode.body if isinstance(x, ast.FunctionDef)]:
+        if f.name not in ("__eq__", "__ne__", "__lt__", "__le__", "__gt__", "__ge__"):
+            continue
+        for r in [x for x in ast.walk(f) if isinstance(x, ast.Return) and x.value is not None]:
+            e = pysym.inline(r.value, f)
+            n += 1
+            ctx.check(okform(e), R, r, f._qual, pyfe.src(r)[:90], "the comparison of the two magnitudes, or a constant",
+                      "the operator returns `%s`, which is not the comparison of the two magnitudes: equal / ordered SI values "
+                      "no longer decide the result (tolerance, rounding or another function)" % pyfe.src(e)[:80])
+    ctx.floor(R, 12)
+
+
 def run(ctx):
     py = ctx.py
     rule_tag(ctx, py)
     rule_raise(ctx, py)
     rule_len(ctx, py)
     rule_units_ops(ctx, py)
+    rule_cmp_exact(ctx, py)
     ctx.assume("value-level correctness of operand order and sign in reflected operators (v - self vs self - v) and "
                "floating-point exactness are not decided")
